@@ -632,7 +632,7 @@ class ConfParser:
                 self._confs["random_displacements"] = nrand
 
         if "random_seed" in arg_list:
-            if self._args.random_seed:
+            if self._args.random_seed is not None:
                 seed = self._args.random_seed
                 if np.issubdtype(type(seed), np.integer) and seed >= 0 and seed < 2**32:
                     self._confs["random_seed"] = seed
